@@ -128,9 +128,8 @@ def match_brace(s, i):
 
 
 def strip_cfg_items(s):
-    """blank out items under #[cfg(test)] and #[cfg(feature = "verif")]"""
-    for m in list(re.finditer(r'#\[cfg\((test|feature\s*=\s*\s*"?\s*verif"?\s*)\)\]', s)):
-        pass
+    """blank out whatever a #[cfg(test)] / #[cfg(feature = …)] attribute applies to: an item or block with
+    braces, or a field / field initialiser / statement / `use` ending in `,` or `;` (at bracket depth 0)"""
     out = s
     pat = re.compile(r'#\[cfg\((?:test|feature[^\]]*)\)\]')
     pos = 0
@@ -138,12 +137,25 @@ def strip_cfg_items(s):
         m = pat.search(out, pos)
         if not m:
             break
-        b = out.find("{", m.end())
-        semi = out.find(";", m.end())
-        if b < 0 or (0 <= semi < b):
-            end = semi if semi >= 0 else m.end()
-        else:
-            end = match_brace(out, b)
+        depth = 0
+        j = m.end()
+        end = len(out) - 1
+        while j < len(out):
+            ch = out[j]
+            if ch in "([":
+                depth += 1
+            elif ch in ")]":
+                depth -= 1
+            elif depth <= 0 and ch == "{":
+                end = match_brace(out, j)
+                break
+            elif depth <= 0 and ch in ";,":
+                end = j
+                break
+            elif depth < 0:      # ran out of the enclosing bracket: nothing more belongs to the attribute
+                end = j - 1
+                break
+            j += 1
         out = out[:m.start()] + re.sub(r"[^\n]", " ", out[m.start():end + 1]) + out[end + 1:]
         pos = m.start() + 1
     return out
@@ -350,6 +362,42 @@ def generate(root, repo, log):
     shaped_users = set(nm for nm, _ in shapes if not nm.endswith(":enter_level") and not nm.endswith(":leave_level"))
     if guarded_names != shaped_users:
         shapes.append(("guarded functions == functions using enter_level/leave_level", False))
+    # ---- doc parser driver shapes (what `Doc.run` / `Doc.step` assume about the doc grammar) -------------
+    doc_shapes = []
+    def body_of(f, n):
+        return norm(fns.get((f, n), ""))
+    pd = body_of("grammar/doc/mod.rs", "parse_docs")
+    doc_shapes.append(("parse_docs loops until TkEof and has no other exit",
+                       pd.startswith("{ while p.current_token() != LuaTokenKind::TkEof {") and not re.search(r"\b(return|break)\b", pd)
+                       and pd.endswith("} }")))
+    pc = body_of("grammar/doc/mod.rs", "parse_comment")
+    doc_shapes.append(("parse_comment = mark; parse_docs; complete",
+                       pc == "{ let m = p.mark(LuaSyntaxKind::Comment); parse_docs(p); m.complete(p); }"))
+    pp = body_of("parser/lua_doc_parser.rs", "parse")
+    doc_shapes.append(("LuaDocParser::parse ends with init(); parse_comment(..) and has no early return",
+                       pp.endswith("parser.init(); parse_comment(&mut parser); }") and not re.search(r"\breturn\b", pp)))
+    n_bte = 0
+    guarded_bte = True
+    for f in DOC_G:
+        src = norm(strip_cfg_items(clean(open(os.path.join(base, f)).read())))
+        for mm in re.finditer(r"bump_to_end\(", src):
+            n_bte += 1
+            guarded_bte = guarded_bte and ("!reader.is_eof()" in src[max(0, mm.start() - 260):mm.start()])
+    doc_shapes.append(("bump_to_end is only called under !reader.is_eof()", n_bte >= 1 and guarded_bte))
+    doc_set_kinds = []
+    for f in DOC_G:
+        src = clean(open(os.path.join(base, f)).read())
+        for mm in re.finditer(r"set_current_token_kind\s*\(\s*([^)]*)\)", src):
+            doc_set_kinds.append(mm.group(1).strip().replace("LuaTokenKind::", ""))
+    # direct writes of the lexer state / current token from the grammar would bypass the modelled operations
+    direct = 0
+    for f in DOC_G:
+        src = norm(strip_cfg_items(clean(open(os.path.join(base, f)).read())))
+        direct += len(re.findall(r"\.lexer\.state\s*=[^=]", src)) + len(re.findall(r"\.lexer\.reset\(", src))
+    doc_shapes.append(("the doc grammar never writes lexer.state / resets the lexer directly", direct == 0))
+    dl = norm(strip_cfg_items(clean(open(os.path.join(base, "lexer/lua_doc_lexer.rs")).read())))
+    own = re.findall(r"self\.state\s*=\s*([A-Za-z:]+)", dl)
+    doc_shapes.append(("the doc lexer changes its own state only to AttributeUse (Doc.stAfter)", own == ["LuaDocLexerState::AttributeUse"]))
     lines = ["/-! GENERATED by checklib/gen/tree_callgraph.py from crates/emmylua_parser/src — do not edit. -/",
              "namespace Gen.TreeCallGraph", "",
              "/-- extracted functions, `file:name` -/",
@@ -366,6 +414,10 @@ def generate(root, repo, log):
              "the counter methods themselves (a failed `enter_level` changes nothing), the `Result` helpers, and the",
              "guard users (`enter_level(p)?;` first, one `leave_level`, nothing in between can leave the function) -/",
              "def guardShapes : List (String × Bool) := [" + ", ".join('("%s", %s)' % (nm, "true" if ok else "false") for nm, ok in shapes) + "]", "",
+             "/-- shapes of the doc parser's driver code that the `Doc` model relies on -/",
+             "def docShapes : List (String × Bool) := [" + ", ".join('("%s", %s)' % (nm, "true" if ok else "false") for nm, ok in doc_shapes) + "]", "",
+             "/-- arguments of every `set_current_token_kind(…)` call of the doc grammar -/",
+             "def docSetKindArgs : List String := [" + ", ".join('"%s"' % k for k in doc_set_kinds) + "]", "",
              "/-- arguments of every `set_current_token_kind(…)` call of the Lua grammar -/",
              "def setKindArgs : List String := [" + ", ".join('"%s"' % k for k in set_kinds) + "]", "",
              "end Gen.TreeCallGraph", ""]
@@ -377,7 +429,8 @@ def generate(root, repo, log):
     return {"file": os.path.relpath(out, root), "functions": len(keys), "edges": len(edges),
             "guarded": [f"{keys[g][0]}:{keys[g][1]}" for g in guarded], "rank_bound": R, "max_levels": max_levels,
             "external_method_names": len(external_methods), "set_kind_args": sorted(set(set_kinds)),
-            "guard_shapes": {nm: ok for nm, ok in shapes}}
+            "guard_shapes": {nm: ok for nm, ok in shapes}, "doc_shapes": {nm: ok for nm, ok in doc_shapes},
+            "doc_set_kind_args": doc_set_kinds}
 
 
 if __name__ == "__main__":
